@@ -152,12 +152,12 @@ theorem front_invariant_aux (log : List Rec) : ∀ (es : List FEv) (s s' : FS) (
         rw [← hr.1]
         exact ih s1 s2 ms' (finv_step h hs).1 hq
 
-theorem inv_prefix {log : List Rec} (hlog : log.Pairwise (fun a b => a.1 < b.1)) {s : RR} {o0 : Int} (h1 : RInv log s)
-    (h2 : SInv log o0 s) (hne : o0 ≠ -1) : s.msgs <+: feed log o0 := by
+theorem inv_prefix {log : List Rec} (hlog : log.Pairwise (fun a b => a.1 < b.1)) {s : RR} {o0 fr : Int} (h1 : RInv log s)
+    (h2 : SInv log o0 fr s) : s.msgs <+: feed log fr := by
   cases hs : s.start with
   | none => rw [(h1.nostart hs).1]; exact List.nil_prefix
   | some st =>
-    rw [← h2.set st hs hne]
+    rw [← h2.set st hs]
     exact loop_msgs_prefix hlog h1 st hs
 
 theorem lookup_setLoop_same (t : Nat) (s' : RR) : ∀ (l : List (Nat × RR)) (s : RR), lookupLoop t l = some s →
@@ -191,8 +191,8 @@ theorem lookup_setLoop_other (t t' : Nat) (s' : RR) (hne : t' ≠ t) : ∀ (l : 
 pushed as many messages as the front has seen from it -/
 structure CInv (items : List Item) (c : CS) : Prop where
   finv : FInv (allRecords items) c.fs
-  loopOf : ∀ f ∈ c.fs.fetchers, ∃ s, lookupLoop f.tag c.loops = some s ∧ RInv (allRecords items) s ∧
-      SInv (allRecords items) f.start s ∧ f.sent = s.msgs.length ∧ f.start ≠ -1
+  loopOf : ∀ f ∈ c.fs.fetchers, ∃ s o, lookupLoop f.tag c.loops = some s ∧ RInv (allRecords items) s ∧
+      SInv (allRecords items) o f.start s ∧ f.sent = s.msgs.length ∧ ((o = f.start ∧ o ≠ -1) ∨ o = -1)
   onlyF : ∀ t s, lookupLoop t c.loops = some s → ∃ f ∈ c.fs.fetchers, f.tag = t
 
 theorem cinv_init (items : List Item) : CInv items {} :=
@@ -202,11 +202,36 @@ def optL (m : Option Rec) : List Rec := match m with | some r => [r] | none => [
 
 /-- one step of the system is a (possibly empty) sequence of steps of the front LTS -/
 theorem cstep_sim (cfg : RCfg) (items : List Item) (nb : Int) (hnb : 0 ≤ nb) (hwf : LWF nb items) {c c' : CS} {m : Option Rec}
-    {e : CEv} (h : CInv items c) (hok : e.ok items) (hs : cstep cfg items c e = some (c', m)) :
+    {e : CEv} (h : CInv items c) (hok : e.ok items) (hat : e.okAt c) (hs : cstep cfg items c e = some (c', m)) :
     CInv items c' ∧ ∃ es', frun (allRecords items) c.fs es' = some (c'.fs, optL m) ∧
-      (e.notSet → ∀ e' ∈ es', notSet e') ∧ (∀ o, e = .setOffset o → es' = [.setOffset o]) := by
+      (e.notSet → ∀ e' ∈ es', notSet e') ∧ (∀ o, e = .setOffset o → es' = [.setOffset o]) ∧
+      (∀ l, e = .setOffsetLast l → es' = [.setOffset l]) := by
   have hlog := allRecords_sorted items nb hnb hwf
   cases e with
+  | setOffsetLast l =>
+    simp only [cstep, fstep, Option.some.injEq, Prod.mk.injEq] at hs
+    obtain ⟨rfl, rfl⟩ := hs
+    have hfs : fstep (allRecords items) c.fs (.setOffset l) =
+        some ({ version := c.fs.version + 1, queue := c.fs.queue, fetchers := { tag := c.fs.version + 1, start := l } :: c.fs.fetchers,
+                accepted := 0 }, none) := rfl
+    refine ⟨⟨(finv_step h.finv hfs).1, ?_, ?_⟩, [.setOffset l], by simp [frun, fstep, optL], fun hn => absurd hn (by simp [CEv.notSet]),
+      fun o' ho' => (by cases ho'), fun l' hl' => (by cases hl'; rfl)⟩
+    · intro f hf
+      simp only [List.mem_cons] at hf
+      rcases hf with rfl | hf
+      · exact ⟨{ offset := -1 }, -1, by simp [lookupLoop], rinv_init _ (-1) (by omega), ⟨fun _ => rfl, fun st hst => by cases hst⟩, rfl,
+          Or.inr rfl⟩
+      · obtain ⟨s, o, a1, a2, a3, a4, a5⟩ := h.loopOf f hf
+        have hle := h.finv.tagle f hf
+        have hne : ¬ c.fs.version + 1 = f.tag := by omega
+        exact ⟨s, o, by simp only [lookupLoop, hne, if_false]; exact a1, a2, a3, a4, a5⟩
+    · intro t s hl
+      simp only [lookupLoop] at hl
+      by_cases ht : c.fs.version + 1 = t
+      · exact ⟨{ tag := c.fs.version + 1, start := l }, by simp, ht⟩
+      · simp only [ht, if_false] at hl
+        obtain ⟨f, hf, hft⟩ := h.onlyF t s hl
+        exact ⟨f, by simp [hf], hft⟩
   | setOffset o =>
     simp only [cstep, fstep, Option.some.injEq, Prod.mk.injEq] at hs
     obtain ⟨rfl, rfl⟩ := hs
@@ -215,15 +240,16 @@ theorem cstep_sim (cfg : RCfg) (items : List Item) (nb : Int) (hnb : 0 ≤ nb) (
         some ({ version := c.fs.version + 1, queue := c.fs.queue, fetchers := { tag := c.fs.version + 1, start := o } :: c.fs.fetchers,
                 accepted := 0 }, none) := rfl
     refine ⟨⟨(finv_step h.finv hfs).1, ?_, ?_⟩, [.setOffset o], by simp [frun, fstep, optL], fun hn => absurd hn (by simp [CEv.notSet]),
-      fun o' ho' => by cases ho'; rfl⟩
+      fun o' ho' => (by cases ho'; rfl), fun l' hl' => (by cases hl')⟩
     · intro f hf
       simp only [List.mem_cons] at hf
       rcases hf with rfl | hf
-      · exact ⟨{ offset := o }, by simp [lookupLoop], rinv_init _ o hok.1, ⟨fun _ => rfl, fun st hst => by cases hst⟩, rfl, hok.2⟩
-      · obtain ⟨s, a1, a2, a3, a4, a5⟩ := h.loopOf f hf
+      · exact ⟨{ offset := o }, o, by simp [lookupLoop], rinv_init _ o hok.1, ⟨fun _ => rfl, fun st hst => by cases hst⟩, rfl,
+          Or.inl ⟨rfl, hok.2⟩⟩
+      · obtain ⟨s, o', a1, a2, a3, a4, a5⟩ := h.loopOf f hf
         have hle := h.finv.tagle f hf
         have hne : ¬ c.fs.version + 1 = f.tag := by omega
-        exact ⟨s, by simp only [lookupLoop, hne, if_false]; exact a1, a2, a3, a4, a5⟩
+        exact ⟨s, o', by simp only [lookupLoop, hne, if_false]; exact a1, a2, a3, a4, a5⟩
     · intro t s hl
       simp only [lookupLoop] at hl
       by_cases ht : c.fs.version + 1 = t
@@ -248,7 +274,7 @@ theorem cstep_sim (cfg : RCfg) (items : List Item) (nb : Int) (hnb : 0 ≤ nb) (
           simp only [hq, Option.some.injEq, Prod.mk.injEq] at hfs
           rw [← hfs.1]
       refine ⟨⟨(finv_step h.finv hfs).1, ?_, ?_⟩, [.fetch], ?_, fun _ e' he' => by simp at he'; subst he'; simp [notSet],
-        fun o ho => by cases ho⟩
+        fun o ho => (by cases ho), fun l hl => (by cases hl)⟩
       · intro f hf
         simp only [hfet] at hf
         exact h.loopOf f hf
@@ -266,18 +292,29 @@ theorem cstep_sim (cfg : RCfg) (items : List Item) (nb : Int) (hnb : 0 ≤ nb) (
       obtain ⟨rfl, rfl⟩ := hs
       simp only [CEv.ok] at hok
       obtain ⟨f, hf, hft⟩ := h.onlyF t s hl
-      obtain ⟨s0, a1, a2, a3, a4, a5⟩ := h.loopOf f hf
+      obtain ⟨s0, o, a1, a2, a3, a4, a5⟩ := h.loopOf f hf
       rw [hft, hl] at a1
       cases a1
       obtain ⟨d, hd⟩ := rstep_msgs cfg s (worldEvent items s x)
       have hdrop : (rstep cfg s (worldEvent items s x)).msgs.drop s.msgs.length = d := by rw [hd]; simp
       rw [hdrop]
       have a2' := rinv_world_step cfg items nb hnb hwf a2 x hok
-      have a3' : SInv (allRecords items) f.start (rstep cfg s (worldEvent items s x)) := by
+      have a3' : SInv (allRecords items) o f.start (rstep cfg s (worldEvent items s x)) := by
         rcases world_good cfg items nb hnb hwf a2 x hok with hg | he
-        · exact sinv_step cfg _ a2 a3 hg
+        · refine sinv_step cfg _ a2 a3 hg ?_
+          rcases a5 with ⟨ho, hne⟩ | ho
+          · rw [← ho]; exact sinv_res_abs hne _
+          · -- a fetcher started at LastOffset: the broker reports the promised log end
+            intro f' l he hs0 _
+            have hx : x = .initOk f' l := by
+              cases x <;> simp [worldEvent] at he
+              rw [he.1, he.2]
+            subst hx
+            have := hat s hl hs0 (by rw [a3.unset hs0, ho]) f hf hft
+            rw [ho, this]
+            simp [resolve]
         · rw [he]; exact a3
-      obtain ⟨tl, htl⟩ := inv_prefix hlog a2' a3' a5
+      obtain ⟨tl, htl⟩ := inv_prefix hlog a2' a3'
       have hslice : ∀ i (hi : i < d.length), (feed (allRecords items) f.start)[f.sent + i]? = some d[i] := by
         intro i hi
         rw [← htl, hd, a4]
@@ -289,7 +326,7 @@ theorem cstep_sim (cfg : RCfg) (items : List Item) (nb : Int) (hnb : 0 ≤ nb) (
       have hfinv' : FInv (allRecords items) (pushQ c.fs t d) :=
         front_invariant_aux (allRecords items) _ _ _ _ h.finv hrun
       refine ⟨⟨hfinv', ?_, ?_⟩, List.replicate d.length (.enqueue t), by simpa [optL] using hrun,
-        fun _ e' he' => by rw [List.mem_replicate] at he'; rw [he'.2]; simp [notSet], fun o ho => by cases ho⟩
+        fun _ e' he' => by rw [List.mem_replicate] at he'; rw [he'.2]; simp [notSet], fun o ho => (by cases ho), fun l hl' => (by cases hl')⟩
       · intro g' hg'
         simp only [pushQ, List.mem_map] at hg'
         obtain ⟨g, hg, rfl⟩ := hg'
@@ -297,11 +334,11 @@ theorem cstep_sim (cfg : RCfg) (items : List Item) (nb : Int) (hnb : 0 ≤ nb) (
         · have hgf : g = f := same_tag_eq h.finv.nodup hg hf (by rw [hgt, hft])
           subst hgf
           simp only [hgt, if_true]
-          refine ⟨_, lookup_setLoop_same t _ c.loops s hl, a2', a3', ?_, a5⟩
+          refine ⟨_, o, lookup_setLoop_same t _ c.loops s hl, a2', a3', ?_, a5⟩
           rw [hd, List.length_append, ← a4]
         · simp only [hgt, if_false]
-          obtain ⟨sg, b1, b2, b3, b4, b5⟩ := h.loopOf g hg
-          exact ⟨sg, by rw [lookup_setLoop_other t g.tag _ hgt]; exact b1, b2, b3, b4, b5⟩
+          obtain ⟨sg, og, b1, b2, b3, b4, b5⟩ := h.loopOf g hg
+          exact ⟨sg, og, by rw [lookup_setLoop_other t g.tag _ hgt]; exact b1, b2, b3, b4, b5⟩
       · intro t' s' hl'
         by_cases htt : t' = t
         · subst htt
@@ -333,7 +370,7 @@ theorem crun_cons {cfg : RCfg} {items : List Item} {c c' : CS} {e : CEv} {es : L
 
 /-- every run of the system is a run of the front LTS (same messages returned by FetchMessage) -/
 theorem crun_sim (cfg : RCfg) (items : List Item) (nb : Int) (hnb : 0 ≤ nb) (hwf : LWF nb items) :
-    ∀ (es : List CEv) (c c' : CS) (ms : List Rec), CInv items c → (∀ e ∈ es, e.ok items) →
+    ∀ (es : List CEv) (c c' : CS) (ms : List Rec), CInv items c → OkRun cfg items c es →
       crun cfg items c es = some (c', ms) →
       CInv items c' ∧ ∃ es', frun (allRecords items) c.fs es' = some (c'.fs, ms) ∧
         ((∀ e ∈ es, e.notSet) → ∀ e' ∈ es', notSet e') := by
@@ -347,8 +384,9 @@ theorem crun_sim (cfg : RCfg) (items : List Item) (nb : Int) (hnb : 0 ≤ nb) (h
   | cons e es ih =>
     intro c c' ms h hok hr
     obtain ⟨c1, m, ms', hs, hq, rfl⟩ := crun_cons hr
-    obtain ⟨h1, es1, hf1, hn1, _⟩ := cstep_sim cfg items nb hnb hwf h (hok e (by simp)) hs
-    obtain ⟨h2, es2, hf2, hn2⟩ := ih c1 c' ms' h1 (fun x hx => hok x (by simp [hx])) hq
+    obtain ⟨hok1, hok2, hok3⟩ := hok
+    obtain ⟨h1, es1, hf1, hn1, _⟩ := cstep_sim cfg items nb hnb hwf h hok1 hok2 hs
+    obtain ⟨h2, es2, hf2, hn2⟩ := ih c1 c' ms' h1 (hok3 c1 m hs) hq
     refine ⟨h2, es1 ++ es2, ?_, ?_⟩
     · rw [frun_append, hf1]; simp only [hf2]
     · intro hns e' he'
@@ -360,20 +398,43 @@ theorem crun_sim (cfg : RCfg) (items : List Item) (nb : Int) (hnb : 0 ≤ nb) (h
 /-- after `SetOffset(o)`, along any run of the whole system without a further SetOffset, the front LTS makes the same
 run -/
 theorem crun_after_set (cfg : RCfg) (items : List Item) (nb : Int) (hnb : 0 ≤ nb) (hwf : LWF nb items) (c0 c' : CS)
-    (h0 : CInv items c0) (o : Int) (ho : -2 ≤ o ∧ o ≠ -1) (es : List CEv) (hok : ∀ e ∈ es, e.ok items)
+    (h0 : CInv items c0) (o : Int) (es : List CEv) (hok : OkRun cfg items c0 (.setOffset o :: es))
     (hns : ∀ e ∈ es, e.notSet) (ms : List Rec) (hr : crun cfg items c0 (.setOffset o :: es) = some (c', ms)) :
     ∃ es', (∀ e' ∈ es', notSet e') ∧ frun (allRecords items) c0.fs (.setOffset o :: es') = some (c'.fs, ms) := by
   obtain ⟨c1, m, ms', hs, hq, rfl⟩ := crun_cons hr
-  obtain ⟨h1, es1, hf1, _, he1⟩ := cstep_sim cfg items nb hnb hwf h0 (e := .setOffset o) ho hs
+  obtain ⟨hok1, hok2, hok3⟩ := hok
+  obtain ⟨h1, es1, hf1, _, he1, _⟩ := cstep_sim cfg items nb hnb hwf h0 (e := .setOffset o) hok1 hok2 hs
   have := he1 o rfl
   subst this
   have hm : m = none := by
     simp only [cstep, fstep, Option.some.injEq, Prod.mk.injEq] at hs
     exact hs.2.symm
   subst hm
-  obtain ⟨_, es2, hf2, hn2⟩ := crun_sim cfg items nb hnb hwf es c1 c' ms' h1 hok hq
+  obtain ⟨_, es2, hf2, hn2⟩ := crun_sim cfg items nb hnb hwf es c1 c' ms' h1 (hok3 c1 none hs) hq
   refine ⟨es2, hn2 hns, ?_⟩
   have := frun_append (allRecords items) [.setOffset o] es2 c0.fs
+  simp only [List.singleton_append] at this
+  rw [this, hf1]
+  simp only [hf2, optL, List.nil_append]
+
+/-- … and after `SetOffset(LastOffset)`: the front LTS makes the same run with a fetcher started at the log end `l` the
+broker reports to it -/
+theorem crun_after_set_last (cfg : RCfg) (items : List Item) (nb : Int) (hnb : 0 ≤ nb) (hwf : LWF nb items) (c0 c' : CS)
+    (h0 : CInv items c0) (l : Int) (es : List CEv) (hok : OkRun cfg items c0 (.setOffsetLast l :: es))
+    (hns : ∀ e ∈ es, e.notSet) (ms : List Rec) (hr : crun cfg items c0 (.setOffsetLast l :: es) = some (c', ms)) :
+    ∃ es', (∀ e' ∈ es', notSet e') ∧ frun (allRecords items) c0.fs (.setOffset l :: es') = some (c'.fs, ms) := by
+  obtain ⟨c1, m, ms', hs, hq, rfl⟩ := crun_cons hr
+  obtain ⟨hok1, hok2, hok3⟩ := hok
+  obtain ⟨h1, es1, hf1, _, _, he1⟩ := cstep_sim cfg items nb hnb hwf h0 (e := .setOffsetLast l) hok1 hok2 hs
+  have := he1 l rfl
+  subst this
+  have hm : m = none := by
+    simp only [cstep, fstep, Option.some.injEq, Prod.mk.injEq] at hs
+    exact hs.2.symm
+  subst hm
+  obtain ⟨_, es2, hf2, hn2⟩ := crun_sim cfg items nb hnb hwf es c1 c' ms' h1 (hok3 c1 none hs) hq
+  refine ⟨es2, hn2 hns, ?_⟩
+  have := frun_append (allRecords items) [.setOffset l] es2 c0.fs
   simp only [List.singleton_append] at this
   rw [this, hf1]
   simp only [hf2, optL, List.nil_append]
@@ -415,19 +476,23 @@ structure AInv (items : List Item) (a : AS) : Prop where
   posok : -2 ≤ a.pos ∧ a.pos ≠ -1
   cur : a.c.fs.version ≠ 0 → ∃ f ∈ a.c.fs.fetchers, f.tag = a.c.fs.version ∧
     (feed (allRecords items) f.start).drop a.c.fs.accepted = feed (allRecords items) a.pos
+  /-- no fetcher of this layer is started at LastOffset -/
+  nolast : ∀ t s, lookupLoop t a.c.loops = some s → s.start = none → s.offset ≠ -1
 
 theorem ainv_init (items : List Item) (o : Int) (ho : -2 ≤ o ∧ o ≠ -1) : AInv items { pos := o } :=
-  ⟨cinv_init items, ho, fun h => absurd rfl h⟩
+  ⟨cinv_init items, ho, fun h => absurd rfl h, by intro t s h; simp [lookupLoop] at h⟩
 
 /-- what the three calls do, seen by the application -/
 def ASpec (items : List Item) (a : AS) (e : AEv) (a' : AS) (m : Option Rec) : Prop :=
   match e with
-  | .setOffset o => a'.pos = o ∧ m = none
-  | .env _ _ => a'.pos = a.pos ∧ m = none
+  | .close => a'.pos = a.pos ∧ m = none ∧ a'.closed = true
+  | .setOffset o => if a.closed then a' = a ∧ m = none else a'.pos = o ∧ m = none ∧ a'.closed = false
+  | .env _ _ => a'.pos = a.pos ∧ m = none ∧ a'.closed = a.closed
   | .fetch =>
-    match m with
-    | some r => (feed (allRecords items) a.pos).head? = some r ∧ a'.pos = r.1 + 1
-    | none => a'.pos = a.pos
+    if a.closed then a' = a ∧ m = none     -- io.EOF: nothing is handed out after Close
+    else match m with
+      | some r => (feed (allRecords items) a.pos).head? = some r ∧ a'.pos = r.1 + 1 ∧ a'.closed = false
+      | none => a'.pos = a.pos ∧ a'.closed = false
 
 theorem cstep_set (cfg : RCfg) (items : List Item) (c : CS) (o : Int) :
     cstep cfg items c (.setOffset o) =
@@ -440,29 +505,49 @@ theorem astep_inv (cfg : RCfg) (items : List Item) (nb : Int) (hnb : 0 ≤ nb) (
     {e : AEv} (h : AInv items a) (hok : e.ok items) (hs : astep cfg items a e = some (a', m)) :
     AInv items a' ∧ ASpec items a e a' m := by
   have hlog := allRecords_sorted items nb hnb hwf
-  have hstart : ∀ o, -2 ≤ o ∧ o ≠ -1 →
-      AInv items { c := { fs := { version := a.c.fs.version + 1, queue := a.c.fs.queue,
-                                  fetchers := { tag := a.c.fs.version + 1, start := o } :: a.c.fs.fetchers, accepted := 0 },
-                          loops := (a.c.fs.version + 1, { offset := o }) :: a.c.loops }, pos := o } := by
-    intro o ho
-    have hc := (cstep_sim cfg items nb hnb hwf h.cinv (e := .setOffset o) ho (cstep_set cfg items a.c o)).1
-    exact ⟨hc, ho, fun _ => ⟨{ tag := a.c.fs.version + 1, start := o }, by simp, rfl, by simp⟩⟩
+  have hstart : ∀ o, -2 ≤ o ∧ o ≠ -1 → ∀ x : AS,
+      x.c = { fs := { version := a.c.fs.version + 1, queue := a.c.fs.queue,
+                      fetchers := { tag := a.c.fs.version + 1, start := o } :: a.c.fs.fetchers, accepted := 0 },
+              loops := (a.c.fs.version + 1, { offset := o }) :: a.c.loops } → x.pos = o → AInv items x := by
+    intro o ho x hxc hxp
+    have hc := (cstep_sim cfg items nb hnb hwf h.cinv (e := .setOffset o) ho trivial (cstep_set cfg items a.c o)).1
+    refine ⟨by rw [hxc]; exact hc, by rw [hxp]; exact ho, fun _ => ?_, ?_⟩
+    · rw [hxc, hxp]
+      exact ⟨{ tag := a.c.fs.version + 1, start := o }, by simp, rfl, by simp⟩
+    · intro t s hl hs0
+      rw [hxc] at hl
+      simp only [lookupLoop] at hl
+      by_cases ht : a.c.fs.version + 1 = t
+      · simp only [ht, if_true, Option.some.injEq] at hl
+        rw [← hl]; exact ho.2
+      · simp only [ht, if_false] at hl
+        exact h.nolast t s hl hs0
   cases e with
+  | close =>
+    simp only [astep, Option.some.injEq, Prod.mk.injEq] at hs
+    obtain ⟨rfl, rfl⟩ := hs
+    exact ⟨⟨h.cinv, h.posok, h.cur, h.nolast⟩, by simp [ASpec]⟩
   | setOffset o =>
     simp only [AEv.ok] at hok
     simp only [astep] at hs
+    by_cases hcl : a.closed = true
+    · simp only [hcl, if_true, Option.some.injEq, Prod.mk.injEq] at hs
+      obtain ⟨rfl, rfl⟩ := hs
+      exact ⟨h, by simp [ASpec, hcl]⟩
+    have hcl' : a.closed = false := by simpa using hcl
+    simp only [hcl', Bool.false_eq_true, if_false] at hs
     by_cases h1 : o = a.pos
     · simp only [h1, if_true, Option.some.injEq, Prod.mk.injEq] at hs
       obtain ⟨rfl, rfl⟩ := hs
-      exact ⟨h, by simp [ASpec, h1]⟩
+      exact ⟨h, by simp [ASpec, h1, hcl']⟩
     · simp only [h1, if_false] at hs
       by_cases h2 : a.c.fs.version = 0
       · simp only [h2, if_true, Option.some.injEq, Prod.mk.injEq] at hs
         obtain ⟨rfl, rfl⟩ := hs
-        exact ⟨⟨h.cinv, hok, fun hv => absurd h2 hv⟩, by simp [ASpec]⟩
+        exact ⟨⟨h.cinv, hok, fun hv => absurd h2 hv, h.nolast⟩, by simp [ASpec, hcl']⟩
       · simp only [h2, if_false, cstep_set, Option.some.injEq, Prod.mk.injEq] at hs
         obtain ⟨rfl, rfl⟩ := hs
-        exact ⟨hstart o hok, by simp [ASpec]⟩
+        exact ⟨hstart o hok _ rfl rfl, by simp [ASpec, hcl']⟩
   | env t x =>
     simp only [AEv.ok] at hok
     simp only [astep] at hs
@@ -472,8 +557,11 @@ theorem astep_inv (cfg : RCfg) (items : List Item) (nb : Int) (hnb : 0 ≤ nb) (
       obtain ⟨c', m'⟩ := p
       simp only [hc, Option.some.injEq, Prod.mk.injEq] at hs
       obtain ⟨rfl, rfl⟩ := hs
-      obtain ⟨hc', _⟩ := cstep_sim cfg items nb hnb hwf h.cinv (e := .env t x) hok hc
-      refine ⟨⟨hc', h.posok, ?_⟩, by simp [ASpec]⟩
+      have hat : (CEv.env t x).okAt a.c := by
+        cases x <;> simp only [CEv.okAt]
+        intro s hl hs0 ho
+        exact absurd ho (h.nolast t s hl hs0)
+      obtain ⟨hc', _⟩ := cstep_sim cfg items nb hnb hwf h.cinv (e := .env t x) hok hat hc
       -- the front part: version, accepted and the fetchers' start offsets are untouched
       simp only [cstep] at hc
       cases hl : lookupLoop t a.c.loops with
@@ -481,6 +569,27 @@ theorem astep_inv (cfg : RCfg) (items : List Item) (nb : Int) (hnb : 0 ≤ nb) (
       | some s =>
         simp only [hl, Option.some.injEq, Prod.mk.injEq] at hc
         obtain ⟨rfl, _⟩ := hc
+        refine ⟨⟨hc', h.posok, ?_, ?_⟩, by simp [ASpec]⟩
+        rotate_left
+        · -- no loop turns into one started at LastOffset
+          intro t' s' hl' hs0'
+          by_cases htt : t' = t
+          · subst htt
+            rw [lookup_setLoop_same t' _ a.c.loops s hl] at hl'
+            cases hl'
+            obtain ⟨f, hf, hft⟩ := h.cinv.onlyF t' s hl
+            obtain ⟨s1, o1, b1, b2, _⟩ := h.cinv.loopOf f hf
+            rw [hft, hl] at b1
+            cases b1
+            rcases rstep_start cfg s (worldEvent items s x) with h1 | ⟨_, f', l', _, h2⟩
+            · have hs0 : s.start = none := by rw [← h1]; exact hs0'
+              have hnr : s.phase ≠ .reading := fun hr => (b2.conn hr).1 hs0
+              rcases rstep_offset_top cfg s (worldEvent items s x) hnr with h3 | h3
+              · rw [h3]; exact h.nolast t' s hl hs0
+              · exact absurd hs0' h3
+            · rw [h2] at hs0'; cases hs0'
+          · rw [lookup_setLoop_other t t' _ htt] at hl'
+            exact h.nolast t' s' hl' hs0'
         intro hv
         obtain ⟨f, hf, hft, hfd⟩ := h.cur hv
         refine ⟨if f.tag = t then { f with sent := f.sent + ((rstep cfg s (worldEvent items s x)).msgs.drop s.msgs.length).length } else f,
@@ -490,12 +599,16 @@ theorem astep_inv (cfg : RCfg) (items : List Item) (nb : Int) (hnb : 0 ≤ nb) (
         · split <;> exact hfd
   | fetch =>
     simp only [astep] at hs
+    by_cases hcl : a.closed = true
+    · simp only [hcl, if_true, Option.some.injEq, Prod.mk.injEq] at hs
+      obtain ⟨rfl, rfl⟩ := hs
+      exact ⟨h, by simp [ASpec, hcl]⟩
+    have hcl' : a.closed = false := by simpa using hcl
+    simp only [hcl', Bool.false_eq_true, if_false] at hs
     by_cases h2 : a.c.fs.version = 0
     · simp only [h2, if_true, cstep_set, Option.some.injEq, Prod.mk.injEq] at hs
       obtain ⟨rfl, rfl⟩ := hs
-      have := hstart a.pos h.posok
-      simp only [h2] at this
-      exact ⟨this, by simp [ASpec]⟩
+      exact ⟨hstart a.pos h.posok _ (by simp [h2]) rfl, by simp [ASpec, hcl']⟩
     · simp only [h2, if_false] at hs
       cases hc : cstep cfg items a.c .fetch with
       | none => simp [hc] at hs
@@ -503,7 +616,7 @@ theorem astep_inv (cfg : RCfg) (items : List Item) (nb : Int) (hnb : 0 ≤ nb) (
         obtain ⟨c2, m'⟩ := p
         simp only [hc, Option.some.injEq, Prod.mk.injEq] at hs
         obtain ⟨rfl, rfl⟩ := hs
-        obtain ⟨hc', _⟩ := cstep_sim cfg items nb hnb hwf h.cinv (e := .fetch) trivial hc
+        obtain ⟨hc', _⟩ := cstep_sim cfg items nb hnb hwf h.cinv (e := .fetch) trivial trivial hc
         obtain ⟨f, hf, hft, hfd⟩ := h.cur h2
         simp only [cstep] at hc
         cases hfs : fstep (allRecords items) a.c.fs .fetch with
@@ -535,13 +648,13 @@ theorem astep_inv (cfg : RCfg) (items : List Item) (nb : Int) (hnb : 0 ≤ nb) (
               simp only [feed, List.mem_filter] at this
               exact this.1
             have hr0 := records_ge hwf r hrec
-            refine ⟨⟨hc', ⟨by simp only; omega, by simp only; omega⟩, ?_⟩, ?_⟩
+            refine ⟨⟨hc', ⟨by simp only; omega, by simp only; omega⟩, ?_, h.nolast⟩, ?_⟩
             · intro _
               refine ⟨f, hf, hft, ?_⟩
               simp only
               rw [← htail, ← List.drop_drop, hfd, hhead]
               simp
-            · simp only [ASpec, and_true]
+            · simp only [ASpec, hcl', Bool.false_eq_true, if_false, and_true]
               rw [hhead]; rfl
 
 end KV.C02
